@@ -82,6 +82,37 @@ Section AssocMap.
       destruct (assoc_last (map (fun x => (k x, v x)) l) (k x)) as [b|] eqn:E; [exact Hx'|].
       apply assoc_last_none in E. exfalso. apply E. apply in_map. exact Hx.
   Qed.
+  Lemma assoc_last_app l1 l2 key :
+    assoc_last (map (fun x => (k x, v x)) (l1 ++ l2)) key =
+    match assoc_last (map (fun x => (k x, v x)) l2) key with
+    | Some b => Some b
+    | None => assoc_last (map (fun x => (k x, v x)) l1) key
+    end.
+  Proof.
+    induction l1 as [|a l1 IH]; cbn [app map assoc_last].
+    - destruct (assoc_last (map (fun x => (k x, v x)) l2) key); reflexivity.
+    - rewrite IH. destruct (assoc_last (map (fun x => (k x, v x)) l2) key); reflexivity.
+  Qed.
+
+  (* the LAST element with a given key owns it *)
+  Lemma assoc_last_owner l1 x l2 :
+    ~ In (k x) (map k l2) ->
+    assoc_last (map (fun x => (k x, v x)) (l1 ++ x :: l2)) (k x) = Some (v x).
+  Proof.
+    intros Hn. rewrite assoc_last_app. cbn [map assoc_last].
+    rewrite (assoc_last_notin l2 (k x) Hn), str_eqb_refl. reflexivity.
+  Qed.
+
+  Lemma assoc_last_shadowed l1 x l2 b :
+    In (k x) (map k l2) ->
+    assoc_last (map (fun x => (k x, v x)) (l1 ++ x :: l2)) (k x) = Some b ->
+    exists y, In y l2 /\ k y = k x /\ v y = b.
+  Proof.
+    intros Hin. rewrite assoc_last_app. cbn [map assoc_last].
+    destruct (assoc_last (map (fun x => (k x, v x)) l2) (k x)) as [b'|] eqn:E.
+    - intros [= <-]. exact (assoc_last_some l2 (k x) b' E).
+    - apply assoc_last_none in E. contradiction.
+  Qed.
 End AssocMap.
 
 Lemma NoDup_map_inj {A B} (f : A -> B) l x y :
@@ -162,6 +193,38 @@ Lemma default_lookup svc m :
   pynames_distinct svc -> In m (s_methods svc) ->
   assoc_last (base_defaults svc) (m_py m) = Some (m_ss m).
 Proof. intros ND Hin. unfold base_defaults. apply (assoc_last_nodup m_py m_ss); assumption. Qed.
+
+(* m is the LAST method of the service with its Python name: its `def`s are the ones that survive *)
+Definition owns (svc : service) (m : method) : Prop :=
+  exists l1 l2, s_methods svc = l1 ++ m :: l2 /\ ~ In (m_py m) (map m_py l2).
+
+Lemma owns_in svc m : owns svc m -> In m (s_methods svc).
+Proof. intros (l1 & l2 & E & _). rewrite E. apply in_or_app. right. left. reflexivity. Qed.
+
+Lemma distinct_owns svc m : pynames_distinct svc -> In m (s_methods svc) -> owns svc m.
+Proof.
+  unfold pynames_distinct. intros ND Hin. apply in_split in Hin. destruct Hin as (l1 & l2 & E).
+  exists l1, l2. split; [exact E|]. rewrite E, map_app in ND. cbn [map] in ND.
+  apply NoDup_remove_2 in ND. intros H. apply ND. apply in_or_app. right. exact H.
+Qed.
+
+Lemma stub_lookup_owns svc m : owns svc m -> assoc_last (stub_class svc) (m_py m) = Some (stub_method svc m).
+Proof.
+  intros (l1 & l2 & E & Hn). unfold stub_class. rewrite E.
+  apply (assoc_last_owner m_py (stub_method svc)). exact Hn.
+Qed.
+
+Lemma adapter_lookup_owns svc m : owns svc m -> assoc_last (base_adapters svc) (m_py m) = Some (m_cs m, m_ss m).
+Proof.
+  intros (l1 & l2 & E & Hn). unfold base_adapters. rewrite E.
+  apply (assoc_last_owner m_py (fun m => (m_cs m, m_ss m))). exact Hn.
+Qed.
+
+Lemma default_lookup_owns svc m : owns svc m -> assoc_last (base_defaults svc) (m_py m) = Some (m_ss m).
+Proof.
+  intros (l1 & l2 & E & Hn). unfold base_defaults. rewrite E.
+  apply (assoc_last_owner m_py m_ss). exact Hn.
+Qed.
 
 (* every entry of the mapping names an adapter and a method body that exist (the `_, _` arm of [serve] is dead) *)
 Lemma mapping_adapter_defined svc r e :
@@ -290,16 +353,16 @@ Definition expected_obs (svc : service) (m : method) (skw ckw : kw) (a : carg) (
       (CRes (fst p) (end_of (snd p))).
 
 Lemma serve_own svc im m h bs :
-  names_distinct svc -> pynames_distinct svc -> In m (s_methods svc) ->
+  names_distinct svc -> owns svc m ->
   resolve_handler svc im (m_py m) = Some h ->
   serve svc im (route svc m) bs =
     let '(tr, ys, st) := run_adapter (m_ss m) (m_py m) h (adapter_input (m_cs m) (map (decode_as (m_in m)) bs)) in
     let '(sent, st') := send_all (negb (m_ss m)) false (m_out m) ys st in
     SOut tr (map snd sent) st'.
 Proof.
-  intros ND NDp Hin Hh. unfold serve.
-  rewrite (dispatch_own svc m ND Hin). cbn [handler_entry_of h_rpc h_card h_in h_out].
-  rewrite (adapter_lookup svc m NDp Hin), Hh.
+  intros ND Hown Hh. unfold serve.
+  rewrite (dispatch_own svc m ND (owns_in svc m Hown)). cbn [handler_entry_of h_rpc h_card h_in h_out].
+  rewrite (adapter_lookup_owns svc m Hown), Hh.
   destruct (cardinality_agree m) as (_ & _ & -> & _). reflexivity.
 Qed.
 
@@ -353,39 +416,46 @@ Proof.
 Qed.
 
 Theorem call_reaches_handler svc im skw ckw m h a :
-  names_distinct svc -> pynames_distinct svc -> In m (s_methods svc) ->
+  names_distinct svc -> owns svc m ->
   resolve_handler svc im (m_py m) = Some h ->
   arg_ok m a -> handler_ok m h (hin_of a) ->
   call svc im skw (m_py m) a ckw =
     Some (expected_obs svc m skw ckw a (produced (m_ss m) h (hin_of a))).
 Proof.
-  intros ND NDp Hin Hh Harg Hok. unfold call.
-  rewrite (stub_lookup svc m NDp Hin). cbn [stub_method sd_helper sd_route sd_in sd_out].
+  intros ND Hown Hh Harg Hok. unfold call.
+  rewrite (stub_lookup_owns svc m Hown). cbn [stub_method sd_helper sd_route sd_in sd_out].
   destruct (cardinality_agree m) as (Hcard & _ & _ & Htakes & _).
   rewrite Htakes, Hcard.
   pose proof (adapter_input_arg m a Harg) as Hinp.
   destruct (run_and_send m h (hin_of a) Hok) as [Hserve Hshape].
   destruct Hok as [Hty _].
   destruct a as [r|rs]; cbn [arg_ok] in Harg; destruct Harg as [Hcs Ht]; rewrite Hcs.
-  - rewrite (serve_own svc im m h [snd r] ND NDp Hin Hh).
+  - rewrite (serve_own svc im m h [snd r] ND Hown Hh).
     cbn [hin_of] in *. rewrite Hinp, Hserve. cbn [so_trace].
     rewrite (client_recv_ok m _ _ Hty Hshape). rewrite Ht. reflexivity.
   - rewrite (encode_all_typed _ _ Ht).
-    rewrite (serve_own svc im m h (map snd rs) ND NDp Hin Hh).
+    rewrite (serve_own svc im m h (map snd rs) ND Hown Hh).
     cbn [hin_of] in *. rewrite Hinp, Hserve. cbn [so_trace].
     rewrite (client_recv_ok m _ _ Hty Hshape). reflexivity.
 Qed.
 
-(* user handler installed *)
+(* user handler installed; m only has to be the last method with its Python name *)
+Corollary payload_owner svc im skw ckw m h a :
+  names_distinct svc -> owns svc m ->
+  im (m_py m) = Some h -> arg_ok m a -> handler_ok m h (hin_of a) ->
+  call svc im skw (m_py m) a ckw =
+    Some (expected_obs svc m skw ckw a (produced (m_ss m) h (hin_of a))).
+Proof.
+  intros ND Hown Him. apply call_reaches_handler; try assumption.
+  unfold resolve_handler. rewrite Him. reflexivity.
+Qed.
+
 Corollary payload svc im skw ckw m h a :
   names_distinct svc -> pynames_distinct svc -> In m (s_methods svc) ->
   im (m_py m) = Some h -> arg_ok m a -> handler_ok m h (hin_of a) ->
   call svc im skw (m_py m) a ckw =
     Some (expected_obs svc m skw ckw a (produced (m_ss m) h (hin_of a))).
-Proof.
-  intros ND NDp Hin Him. apply call_reaches_handler; try assumption.
-  unfold resolve_handler. rewrite Him. reflexivity.
-Qed.
+Proof. intros ND NDp Hin. apply payload_owner; [exact ND | apply distinct_owns; assumption]. Qed.
 
 (* method not overridden *)
 Lemma default_ok m inp : handler_ok m (default_body (m_ss m)) inp.
@@ -398,15 +468,55 @@ Qed.
 Lemma default_produced m inp : produced (m_ss m) (default_body (m_ss m)) inp = ([], Some ST_UNIMPLEMENTED).
 Proof. unfold default_body, produced. destruct (m_ss m); reflexivity. Qed.
 
+Corollary unimplemented_owner svc im skw ckw m a :
+  names_distinct svc -> owns svc m ->
+  im (m_py m) = None -> arg_ok m a ->
+  call svc im skw (m_py m) a ckw = Some (expected_obs svc m skw ckw a ([], Some ST_UNIMPLEMENTED)).
+Proof.
+  intros ND Hown Him Harg.
+  rewrite <- (default_produced m (hin_of a)).
+  apply call_reaches_handler; try assumption; [|apply default_ok].
+  unfold resolve_handler. rewrite Him, (default_lookup_owns svc m Hown). reflexivity.
+Qed.
+
 Corollary unimplemented svc im skw ckw m a :
   names_distinct svc -> pynames_distinct svc -> In m (s_methods svc) ->
   im (m_py m) = None -> arg_ok m a ->
   call svc im skw (m_py m) a ckw = Some (expected_obs svc m skw ckw a ([], Some ST_UNIMPLEMENTED)).
+Proof. intros ND NDp Hin. apply unimplemented_owner; [exact ND | apply distinct_owns; assumption]. Qed.
+
+(* the exact per-method condition: the stub attribute named after m is m's stub method iff m is the
+   last method with that Python name *)
+Lemma stub_attr_iff_owns svc m :
+  names_distinct svc -> In m (s_methods svc) ->
+  (assoc_last (stub_class svc) (m_py m) = Some (stub_method svc m) <-> owns svc m).
 Proof.
-  intros ND NDp Hin Him Harg.
-  rewrite <- (default_produced m (hin_of a)).
-  apply call_reaches_handler; try assumption; [|apply default_ok].
-  unfold resolve_handler. rewrite Him, (default_lookup svc m NDp Hin). reflexivity.
+  intros ND Hin. split; [|apply stub_lookup_owns].
+  intros H. pose proof Hin as Hsplit. apply in_split in Hsplit. destruct Hsplit as (l1 & l2 & E).
+  exists l1, l2. split; [exact E|]. intros Hshadow.
+  unfold stub_class in H. rewrite E in H.
+  apply (assoc_last_shadowed m_py (stub_method svc) l1 m l2 _ Hshadow) in H.
+  destruct H as (y & Hy & _ & Hv).
+  assert (Hyin : In y (s_methods svc)) by (rewrite E; apply in_or_app; right; right; exact Hy).
+  assert (y = m) by (apply (stub_method_inj svc (s_methods svc)); assumption).
+  subst y.
+  pose proof (NoDup_map_NoDup m_name _ ND) as NDl. rewrite E in NDl.
+  apply NoDup_remove_2 in NDl. apply NDl. apply in_or_app. right. exact Hy.
+Qed.
+
+(* server side alone, for ANY client that opens m's route (not only the generated stub) *)
+Lemma server_side svc im m h reqs :
+  names_distinct svc -> owns svc m -> im (m_py m) = Some h ->
+  typed (m_in m) reqs -> (m_cs m = false -> exists r, reqs = [r]) ->
+  handler_ok m h (adapter_input (m_cs m) reqs) ->
+  let p := produced (m_ss m) h (adapter_input (m_cs m) reqs) in
+  serve svc im (route svc m) (map snd reqs) =
+    SOut [(m_py m, adapter_input (m_cs m) reqs)] (map snd (fst p)) (snd p).
+Proof.
+  intros ND Hown Him Hty Hone Hok p.
+  rewrite (serve_own svc im m h (map snd reqs) ND Hown) by (unfold resolve_handler; rewrite Him; reflexivity).
+  rewrite decode_encode by assumption.
+  destruct (run_and_send m h _ Hok) as [Hs _]. exact Hs.
 Qed.
 
 Lemma unknown_route svc im r bs :
@@ -529,54 +639,13 @@ Lemma pinned_close_skips_handler :
 Proof. exists n_get_foo, (InOne (Some a_msg)), 7. repeat split. discriminate. Qed.
 
 (* ------------------------------------------------------------------------- T1 tables *)
-Definition flags_method (cs ss : bool) : method := Method [] [] cs ss [] [].
-
-Definition helper_eqb (a c : helper) : bool :=
-  match a, c with
-  | H_unary_unary, H_unary_unary | H_unary_stream, H_unary_stream
-  | H_stream_unary, H_stream_unary | H_stream_stream, H_stream_stream => true
-  | _, _ => false
-  end.
-
-Definition stub_site_ok (cs ss : bool) : bool :=
-  existsb (fun '(c, s, h, ok) => Bool.eqb c cs && Bool.eqb s ss && helper_eqb h (stub_helper (flags_method cs ss)) && ok)
-          C11Tables.stub_sites
-  && forallb (fun '(c, s, h, ok) => negb (Bool.eqb c cs && Bool.eqb s ss) || (helper_eqb h (stub_helper (flags_method cs ss)) && ok))
-          C11Tables.stub_sites.
-
-Definition helper_site_ok (h : helper) : bool :=
-  existsb (fun '(h', c, o1, o2, o3) => helper_eqb h' h && card_eqb c (helper_card h) && o1 && o2 && o3) C11Tables.helper_sites
-  && forallb (fun '(h', c, o1, o2, o3) => negb (helper_eqb h' h) || (card_eqb c (helper_card h) && o1 && o2 && o3)) C11Tables.helper_sites.
-
-Definition mapping_site_ok (cs ss : bool) : bool :=
-  existsb (fun '(c, s, cd, ok) => Bool.eqb c cs && Bool.eqb s ss && card_eqb cd (mapping_card (flags_method cs ss)) && ok)
-          C11Tables.mapping_sites
-  && forallb (fun '(c, s, cd, ok) => negb (Bool.eqb c cs && Bool.eqb s ss) || (card_eqb cd (mapping_card (flags_method cs ss)) && ok))
-          C11Tables.mapping_sites.
-
-Definition default_site_ok (cs ss : bool) : bool :=
-  existsb (fun '(c, s, st) => Bool.eqb c cs && Bool.eqb s ss && Z.eqb st ST_UNIMPLEMENTED) C11Tables.default_status
-  && forallb (fun '(c, s, st) => negb (Bool.eqb c cs && Bool.eqb s ss) || Z.eqb st ST_UNIMPLEMENTED) C11Tables.default_status.
-
-Fixpoint str_pairs_eqb (a c : list (str * str)) : bool :=
-  match a, c with
-  | [], [] => true
-  | (x, y) :: a', (x', y') :: c' => str_eqb x x' && str_eqb y y' && str_pairs_eqb a' c'
-  | _, _ => false
-  end.
-
-Definition routes_of (svc : service) : list (str * str) := map (fun m => (m_name m, route svc m)) (s_methods svc).
-
+(* [tables_ok_of] (Model/Grpc.v) compares what reflection of the rendered probe shows with the model's
+   functions; here it is applied to the regenerated tables *)
 Definition tables_ok : bool :=
-  forallb (fun cs => forallb (fun ss => stub_site_ok cs ss && mapping_site_ok cs ss && default_site_ok cs ss) [false; true]) [false; true]
-  && forallb helper_site_ok [H_unary_unary; H_unary_stream; H_stream_unary; H_stream_stream]
-  && Z.eqb C11Tables.status_unimplemented ST_UNIMPLEMENTED && Z.eqb C11Tables.status_unknown ST_UNKNOWN
-  && str_pairs_eqb (routes_of C11Tables.probe_service) C11Tables.probe_stub_routes
-  && str_pairs_eqb (routes_of C11Tables.probe_service) C11Tables.probe_mapping_routes
-  && match s_methods C11Tables.bare_service with
-     | [m] => str_eqb (route C11Tables.bare_service m) C11Tables.bare_mapping_route
-     | _ => false
-     end.
+  tables_ok_of C11Tables.stub_sites C11Tables.helper_sites C11Tables.mapping_sites C11Tables.default_status
+               C11Tables.status_unimplemented C11Tables.status_unknown
+               C11Tables.probe_service C11Tables.probe_stub_routes C11Tables.probe_mapping_routes
+               C11Tables.bare_service C11Tables.bare_mapping_route.
 
 Lemma tables_agree : tables_ok = true.
 Proof. vm_compute. reflexivity. Qed.
